@@ -289,6 +289,10 @@ def specs(tier):
         S.append(dict(name="%s-mutable-metric-values-ev%d-es%d" % (crit, pe, ps), module="checks.c18", function="stopping",
                       kwargs=dict(n=4, criterion=crit, ev_period=pe, es_period=ps, source="metric", boxed=True),
                       inputs={**{"v%d" % i: ("real", -100, 100) for i in range(4)}, "tol": ("real", 0, 1000), "patience": ("int", 1, 2)}))
+    for pe, ps in ((2, 3), (3, 2)):
+        S.append(dict(name="absolute-metric-coprime-periods-ev%d-es%d" % (pe, ps), module="checks.c18", function="stopping",
+                      kwargs=dict(n=4, criterion="absolute", ev_period=pe, es_period=ps, source="metric"),
+                      inputs={**{"v%d" % i: ("real", -100, 100) for i in range(4)}, "tol": ("real", 0, 1000), "patience": ("int", 1, 2)}))
     S.append(dict(name="absolute-with-other-stopper", module="checks.c18", function="stopping", kwargs=dict(n=n, criterion="absolute", source="metric", other_stop=True),
                   inputs=dict(inputs(False), other_at=("int", 0, n))))
     S.append(dict(name="construction", module="checks.c18", function="construction", kwargs={}, inputs={"patience": ("int", 1, pmax)}))
